@@ -60,6 +60,15 @@ macro_rules! enc_backend {
                 Err(_) => return "err:noise".to_string(),
             };
             let mut scratch: ScratchOwned<BE> = ScratchOwned::alloc(1 << 20);
+            // dirty scratch: results must not depend on what the arena held before (C12), and a
+            // temporary that is only partially overwritten must not leak into the ciphertext (C01)
+            {
+                let mut st: u64 = 0x9E3779B97F4A7C15 ^ (sxe as u64);
+                for x in scratch.borrow().data.iter_mut() {
+                    st = st.wrapping_mul(6364136223846793005).wrapping_add(1442695040888963407);
+                    *x = (st >> 56) as u8;
+                }
+            }
 
             if op == "lwe_sk" {
                 let nl = kv_us(t, "nl");
